@@ -16,6 +16,10 @@ Proof. exact lexpad_is_decl. Qed.
    weight the code gives a letter (its lower-case ASCII code) *)
 Theorem C01_tokens_follow_table : forall s, digit_runs_le 18 s -> mkv s = mkv_table code_weight s.
 Proof. exact tokens_follow_table. Qed.
+(* ... and for EVERY string when the table is read with saturation (a component of more than 18 digits that exceeds
+   i64::MAX counts as i64::MAX, a revision that does not fit as 0 - the behaviour of the D3 repair) *)
+Theorem C01_tokens_follow_table_all : forall s, mkv s = mkv_table_sat code_weight s.
+Proof. exact tokens_follow_table_sat. Qed.
 (* against the property's own reading (alphabet rank): equal verdicts outside
    the known-finding class letter_conflict *)
 Theorem C01_verdict_outside_known : forall o a b, digit_runs_le 18 a -> digit_runs_le 18 b ->
